@@ -402,4 +402,221 @@ Proof.
   - discriminate Hn.
 Qed.
 
+(* ---- positions are untouched: the tagged list of the annotated tree has the starts of the original ---- *)
+Lemma erase_plain (s : cstmt E) : plain s -> plain (erase s) /\ start_of (erase s) = start_of s.
+Proof. destruct s; cbn; intros H; split; try reflexivity; discriminate H. Qed.
+
+Lemma erase_list_plain_cons (s : cstmt E) t : plain s -> erase_list erase (s :: t) = erase s :: erase_list erase t.
+Proof. destruct s; cbn; intros H; try reflexivity; discriminate H. Qed.
+
+Lemma tagged_erase_list (l : list (cstmt E)) :
+  Forall (fun s => map snd (tagged_in s) = map snd (tagged_in (erase s))) l ->
+  forall prev, map snd (tagged_list tagged_in prev l) = map snd (tagged_list tagged_in None (erase_list erase l)).
+Proof.
+  induction 1 as [|s t Hs _ IH]; intros prev; [reflexivity|].
+  destruct (is_cover s) eqn:Hc.
+  - destruct s; try discriminate Hc. cbn [tagged_list erase_list]. apply IH.
+  - destruct (erase_plain s Hc) as [Hp He].
+    rewrite (erase_list_plain_cons s t Hc), !tagged_list_plain by assumption.
+    cbn [map snd]. rewrite !map_app, Hs, (IH None), He. reflexivity.
+Qed.
+
+Lemma tagged_erase (s : cstmt E) : map snd (tagged_in s) = map snd (tagged_in (erase s)).
+Proof.
+  induction s using cstmt_ind'; cbn [erase tagged_in]; try reflexivity.
+  - rewrite !map_app, (tagged_erase_list body H None), (tagged_erase_list els H0 None). reflexivity.
+  - apply (tagged_erase_list body H None).
+  - apply (tagged_erase_list body H None).
+  - apply (tagged_erase_list body H None).
+  - apply (tagged_erase_list body H None).
+  - apply (tagged_erase_list body H None).
+Qed.
+
+Lemma tagged_erase_stmts (l : list (cstmt E)) : map snd (tagged l) = map snd (tagged (erase_stmts l)).
+Proof.
+  apply tagged_erase_list. apply Forall_forall. intros s _. apply tagged_erase.
+Qed.
+
+(* ---- lists of statement lists (BEGIN blocks, END blocks, function bodies) ---- *)
+Definition list_rel (l' l : list (cstmt E)) : Prop :=
+  erase_stmts l' = l /\ sok_list sok None l' /\ (l' = [] -> l = []) /\ (l = [] -> l' = []).
+
+Definition nstmts_lists (ls : list (list (cstmt E))) : Z := fold_right (fun l a => nstmts_list l + a) 0 ls.
+
+Notation ann_lists := (@ann_lists E files mode).
+Notation ann_actions := (@ann_actions E files mode).
+Notation ann_body := (@ann_body E files mode).
+
+Lemma ann_lists_cons l t bl :
+  ann_lists (l :: t) bl =
+  (fst (ann_stmts l bl) :: fst (ann_lists t (snd (ann_stmts l bl))), snd (ann_lists t (snd (ann_stmts l bl)))).
+Proof.
+  cbn [Cover.ann_lists]. destruct (ann_stmts l bl) as [l' bl1]. cbn [fst snd].
+  destruct (ann_lists t bl1) as [t' bl2]. reflexivity.
+Qed.
+
+Lemma nocov_all_ok (l : list (cstmt E)) : forallb nocov l = true -> Forall stmt_ok l.
+Proof.
+  intros H. apply forallb_stmt_ok; [|exact H]. apply Forall_forall. intros s _. apply stmt_ok_all.
+Qed.
+
+Lemma ann_stmts_nil bl : ann_stmts [] bl = ([], bl).
+Proof. reflexivity. Qed.
+
+Lemma ann_stmts_rel l bl : forallb nocov l = true ->
+  list_rel (fst (ann_stmts l bl)) l
+  /\ Seg bl (snd (ann_stmts l bl)) (marks_of (tagged (fst (ann_stmts l bl))))
+  /\ exists new, snd (ann_stmts l bl) = bl ++ new /\ sum_num new = nstmts_list l.
+Proof.
+  intros Hn. destruct (body_facts l bl (nocov_all_ok l Hn)) as (B1 & B2 & B3 & B4 & B5).
+  split; [|split; assumption].
+  split; [exact B1|]. split; [exact B2|]. split; [exact B5|].
+  intros ->. reflexivity.
+Qed.
+
+Lemma ann_lists_facts ls : forallb (forallb nocov) ls = true -> forall bl,
+  Forall2 list_rel (fst (ann_lists ls bl)) ls
+  /\ Seg bl (snd (ann_lists ls bl)) (marks_of (concat (map tagged (fst (ann_lists ls bl)))))
+  /\ exists new, snd (ann_lists ls bl) = bl ++ new /\ sum_num new = nstmts_lists ls.
+Proof.
+  induction ls as [|l t IH]; intros Hn bl.
+  - cbn. split; [constructor|]. split; [apply Seg_nil|]. exists []. rewrite app_nil_r. split; reflexivity.
+  - cbn [forallb] in Hn. apply andb_prop in Hn as [H1 H2].
+    rewrite ann_lists_cons. cbn [fst snd map concat].
+    destruct (ann_stmts_rel l bl H1) as (R1 & S1 & new1 & N1 & M1).
+    destruct (IH H2 (snd (ann_stmts l bl))) as (R2 & S2 & new2 & N2 & M2).
+    split; [constructor; assumption|]. split.
+    + rewrite marks_of_app. eapply Seg_app; [exact S1|exact S2].
+    + exists (new1 ++ new2). split; [rewrite N2, N1, app_assoc; reflexivity|].
+      rewrite sum_num_app, M1, M2. unfold nstmts_lists. cbn [fold_right]. lia.
+Qed.
+
+(* ---- actions ---- *)
+(* how the annotated body relates to the original one; the middle case is the defect:
+   a present but empty body comes back absent *)
+Definition body_rel (b' b : option (list (cstmt E))) : Prop :=
+  match b, b' with
+  | None, None => True
+  | Some [], None => True
+  | Some l, Some l' => l <> [] /\ l' <> [] /\ erase_stmts l' = l /\ sok_list sok None l'
+  | _, _ => False
+  end.
+Definition action_rel (a' a : action E) : Prop := a_pat a' = a_pat a /\ body_rel (a_body a') (a_body a).
+
+Definition nocov_body (b : option (list (cstmt E))) : bool :=
+  match b with None => true | Some l => forallb nocov l end.
+Definition nstmts_body (b : option (list (cstmt E))) : Z :=
+  match b with None => 0 | Some l => nstmts_list l end.
+Definition nstmts_actions (acts : list (action E)) : Z :=
+  fold_right (fun a x => nstmts_body (a_body a) + x) 0 acts.
+
+Lemma ann_body_facts b bl : nocov_body b = true ->
+  body_rel (fst (ann_body b bl)) b
+  /\ Seg bl (snd (ann_body b bl)) (marks_of (tagged_body (fst (ann_body b bl))))
+  /\ (exists new, snd (ann_body b bl) = bl ++ new /\ sum_num new = nstmts_body b)
+  /\ map snd (tagged_body (fst (ann_body b bl))) = map snd (tagged_body b).
+Proof.
+  destruct b as [l|]; cbn [nocov_body Cover.ann_body]; intros Hn.
+  - destruct (ann_stmts_rel l bl Hn) as ((R1 & R2 & R3 & R4) & S1 & N1).
+    destruct (ann_stmts l bl) as [r bl1] eqn:Hr. cbn [fst snd] in *.
+    destruct r as [|x r].
+    + pose proof (R3 eq_refl) as Hl. subst l. cbn. split; [exact I|]. split; [exact S1|]. split; [exact N1|]. reflexivity.
+    + cbn [tagged_body body_rel]. split.
+      * destruct l as [|y l]; [discriminate (R4 eq_refl)|]. split; [discriminate|]. split; [discriminate|]. split; assumption.
+      * split; [exact S1|]. split; [exact N1|]. rewrite tagged_erase_stmts, R1. reflexivity.
+  - cbn. split; [exact I|]. split; [apply Seg_nil|]. split; [|reflexivity].
+    exists []. rewrite app_nil_r. split; reflexivity.
+Qed.
+
+Lemma ann_actions_cons a t bl :
+  ann_actions (a :: t) bl =
+  (mkaction (a_pat a) (fst (ann_body (a_body a) bl)) :: fst (ann_actions t (snd (ann_body (a_body a) bl))),
+   snd (ann_actions t (snd (ann_body (a_body a) bl)))).
+Proof.
+  cbn [Cover.ann_actions]. destruct (ann_body (a_body a) bl) as [b' bl1]. cbn [fst snd].
+  destruct (ann_actions t bl1) as [t' bl2]. reflexivity.
+Qed.
+
+Lemma ann_actions_facts acts : forallb (fun a => nocov_body (a_body a)) acts = true -> forall bl,
+  Forall2 action_rel (fst (ann_actions acts bl)) acts
+  /\ Seg bl (snd (ann_actions acts bl))
+        (marks_of (concat (map (fun a => tagged_body (a_body a)) (fst (ann_actions acts bl)))))
+  /\ (exists new, snd (ann_actions acts bl) = bl ++ new /\ sum_num new = nstmts_actions acts)
+  /\ map snd (concat (map (fun a => tagged_body (a_body a)) (fst (ann_actions acts bl))))
+     = map snd (concat (map (fun a => tagged_body (a_body a)) acts)).
+Proof.
+  induction acts as [|a t IH]; intros Hn bl.
+  - cbn. split; [constructor|]. split; [apply Seg_nil|]. split; [|reflexivity].
+    exists []. rewrite app_nil_r. split; reflexivity.
+  - cbn [forallb] in Hn. apply andb_prop in Hn as [H1 H2].
+    rewrite ann_actions_cons. cbn [fst snd map concat a_body].
+    destruct (ann_body_facts (a_body a) bl H1) as (R1 & S1 & (new1 & N1 & M1) & T1).
+    destruct (IH H2 (snd (ann_body (a_body a) bl))) as (R2 & S2 & (new2 & N2 & M2) & T2).
+    split; [constructor; [split; [reflexivity|exact R1]|exact R2]|]. split; [|split].
+    + rewrite marks_of_app. eapply Seg_app; [exact S1|exact S2].
+    + exists (new1 ++ new2). split; [rewrite N2, N1, app_assoc; reflexivity|].
+      rewrite sum_num_app, M1, M2. unfold nstmts_actions. cbn [fold_right]. lia.
+    + rewrite !map_app, T1, T2. reflexivity.
+Qed.
+
+(* ---- the whole program ---- *)
+Definition nocov_prog (P : program E) : bool :=
+  forallb (forallb nocov) (p_begin P) && forallb (fun a => nocov_body (a_body a)) (p_actions P)
+  && forallb (forallb nocov) (p_end P) && forallb (forallb nocov) (p_funcs P).
+Definition nstmts_prog (P : program E) : Z :=
+  nstmts_lists (p_begin P) + nstmts_actions (p_actions P) + nstmts_lists (p_end P) + nstmts_lists (p_funcs P).
+
+Record ann_ok (P A : program E) (B : list block) : Prop := mk_ann_ok {
+  ao_begin : Forall2 list_rel (p_begin A) (p_begin P);
+  ao_actions : Forall2 action_rel (p_actions A) (p_actions P);
+  ao_end : Forall2 list_rel (p_end A) (p_end P);
+  ao_funcs : Forall2 list_rel (p_funcs A) (p_funcs P);
+  ao_seg : Seg [] B (marks_of (tagged_prog A));
+  ao_sum : sum_num B = nstmts_prog P;
+  ao_tags : map snd (tagged_prog A) = map snd (tagged_prog P) }.
+
+Lemma lists_rel_tags ls' ls : Forall2 list_rel ls' ls ->
+  map snd (concat (map tagged ls')) = map snd (concat (map tagged ls)).
+Proof.
+  induction 1 as [|l' l t' t (R1 & _) _ IH]; [reflexivity|].
+  cbn [map concat]. rewrite !map_app, IH, tagged_erase_stmts, R1. reflexivity.
+Qed.
+
+Notation annotate := (@annotate E files mode).
+
+Lemma annotate_eq P :
+  let r1 := ann_lists (p_begin P) [] in
+  let r2 := ann_actions (p_actions P) (snd r1) in
+  let r3 := ann_lists (p_end P) (snd r2) in
+  let r4 := ann_lists (p_funcs P) (snd r3) in
+  annotate P = (mkprogram (fst r1) (fst r2) (fst r3) (fst r4), snd r4).
+Proof.
+  unfold Cover.annotate.
+  destruct (ann_lists (p_begin P) []) as [bg bl1]. cbn [fst snd].
+  destruct (ann_actions (p_actions P) bl1) as [acts bl2]. cbn [fst snd].
+  destruct (ann_lists (p_end P) bl2) as [en bl3]. cbn [fst snd].
+  destruct (ann_lists (p_funcs P) bl3) as [fns bl4]. reflexivity.
+Qed.
+
+Theorem annotate_ok P : nocov_prog P = true -> ann_ok P (fst (annotate P)) (snd (annotate P)).
+Proof.
+  unfold nocov_prog. intros Hn.
+  apply andb_prop in Hn as [Hn H4]. apply andb_prop in Hn as [Hn H3]. apply andb_prop in Hn as [H1 H2].
+  rewrite annotate_eq. cbn zeta. cbn [fst snd].
+  destruct (ann_lists_facts (p_begin P) H1 []) as (R1 & S1 & new1 & N1 & M1).
+  set (b1 := snd (ann_lists (p_begin P) [])) in *.
+  destruct (ann_actions_facts (p_actions P) H2 b1) as (R2 & S2 & (new2 & N2 & M2) & T2).
+  set (b2 := snd (ann_actions (p_actions P) b1)) in *.
+  destruct (ann_lists_facts (p_end P) H3 b2) as (R3 & S3 & new3 & N3 & M3).
+  set (b3 := snd (ann_lists (p_end P) b2)) in *.
+  destruct (ann_lists_facts (p_funcs P) H4 b3) as (R4 & S4 & new4 & N4 & M4).
+  set (b4 := snd (ann_lists (p_funcs P) b3)) in *.
+  constructor; cbn [p_begin p_actions p_end p_funcs]; try assumption.
+  - unfold tagged_prog. cbn [p_begin p_actions p_end p_funcs]. rewrite !marks_of_app.
+    eapply Seg_app; [exact S1|]. eapply Seg_app; [exact S2|]. eapply Seg_app; [exact S3|exact S4].
+  - rewrite N4, N3, N2, N1. cbn [app]. rewrite !sum_num_app, M1, M2, M3, M4. unfold nstmts_prog. lia.
+  - unfold tagged_prog. cbn [p_begin p_actions p_end p_funcs]. rewrite !map_app.
+    rewrite (lists_rel_tags _ _ R1), T2, (lists_rel_tags _ _ R3), (lists_rel_tags _ _ R4). reflexivity.
+Qed.
+
 End Struct.
